@@ -2,9 +2,9 @@ import Proofs.UncondBase
 /-!
 # UncondC01 — C01: every signature verifies on the named curves with NO primality hypothesis
 
-For every curve of `NamedPrimes.unconditionalCurves` (13 curves: p and n carry kernel-checked Pocklington certificates, the
+For every curve of `NamedPrimes.unconditionalCurves` (all 17 curves of the table since the last four certificates were found: p and n carry kernel-checked Pocklington certificates, the
 order of the base point is checked by kernel evaluation) the headline statements of C01 hold without any hypothesis about the
-curve, except `#E(𝔽_p) = n` where stated; for the 4 curves with one uncertified number (`…_<curve>`) with exactly that one.
+curve, except `#E(𝔽_p) = n` where stated.
 Generated from `Props/Uncond.lean` by harness/tools/primecerts/mkuncond_split.py.
 -/
 namespace UncondC01
@@ -41,41 +41,5 @@ theorem sign_then_verify_six_encoders (hr : r ∈ unconditionalCurves) (d : ℤ)
   have C := OnCurve.pointOpsCorrect (crvOf r) _ M
   obtain ⟨Q, hQ, vQ, dQ⟩ := C01.key_pair_ok C d hd
   exact ⟨Q, hQ, C01.sign_then_verify_six_encoders C (order_small (mem_table hr)) d Q vQ dQ dg k rand allow⟩
-
-theorem sign_then_verify_NIST384p {β σ : Type} (h : Nat.Prime Gen.curve_NIST384p.n)
-    (d : ℤ) (hd : 1 ≤ d ∧ d < Gen.curve_NIST384p.n) (dg : Bytes) (k : Option ℤ) (rand : ℤ → Res ℤ)
-    (enc : ℤ → ℤ → ℤ → Res β) (wrap : β → σ) (dec : σ → ℕ → Res (ℕ × ℕ)) (hcodec : Codec enc wrap dec Gen.curve_NIST384p.n)
-    (allow : Bool) (sig : β) (hsig : signDigest (OnCurve.ops (crvOf Gen.curve_NIST384p)) d dg k rand enc allow = .ok sig) :
-    ∃ Q, fromSecretExponent (OnCurve.ops (crvOf Gen.curve_NIST384p)) d = .ok Q ∧
-      verifyDigest (OnCurve.ops (crvOf Gen.curve_NIST384p)) Q dec (wrap sig) dg allow = .ok true := by
-  haveI : Fact (Nat.Prime Gen.curve_NIST384p.p) := ⟨prime_p_NIST384p⟩
-  exact Named.sign_then_verify mem_NIST384p h d hd dg k rand enc wrap dec hcodec allow sig hsig
-
-theorem sign_then_verify_NIST521p {β σ : Type} (h : Nat.Prime Gen.curve_NIST521p.n)
-    (d : ℤ) (hd : 1 ≤ d ∧ d < Gen.curve_NIST521p.n) (dg : Bytes) (k : Option ℤ) (rand : ℤ → Res ℤ)
-    (enc : ℤ → ℤ → ℤ → Res β) (wrap : β → σ) (dec : σ → ℕ → Res (ℕ × ℕ)) (hcodec : Codec enc wrap dec Gen.curve_NIST521p.n)
-    (allow : Bool) (sig : β) (hsig : signDigest (OnCurve.ops (crvOf Gen.curve_NIST521p)) d dg k rand enc allow = .ok sig) :
-    ∃ Q, fromSecretExponent (OnCurve.ops (crvOf Gen.curve_NIST521p)) d = .ok Q ∧
-      verifyDigest (OnCurve.ops (crvOf Gen.curve_NIST521p)) Q dec (wrap sig) dg allow = .ok true := by
-  haveI : Fact (Nat.Prime Gen.curve_NIST521p.p) := ⟨prime_p_NIST521p⟩
-  exact Named.sign_then_verify mem_NIST521p h d hd dg k rand enc wrap dec hcodec allow sig hsig
-
-theorem sign_then_verify_BRAINPOOLP384r1 {β σ : Type} (h : Nat.Prime Gen.curve_BRAINPOOLP384r1.p)
-    (d : ℤ) (hd : 1 ≤ d ∧ d < Gen.curve_BRAINPOOLP384r1.n) (dg : Bytes) (k : Option ℤ) (rand : ℤ → Res ℤ)
-    (enc : ℤ → ℤ → ℤ → Res β) (wrap : β → σ) (dec : σ → ℕ → Res (ℕ × ℕ)) (hcodec : Codec enc wrap dec Gen.curve_BRAINPOOLP384r1.n)
-    (allow : Bool) (sig : β) (hsig : signDigest (OnCurve.ops (crvOf Gen.curve_BRAINPOOLP384r1)) d dg k rand enc allow = .ok sig) :
-    ∃ Q, fromSecretExponent (OnCurve.ops (crvOf Gen.curve_BRAINPOOLP384r1)) d = .ok Q ∧
-      verifyDigest (OnCurve.ops (crvOf Gen.curve_BRAINPOOLP384r1)) Q dec (wrap sig) dg allow = .ok true := by
-  haveI : Fact (Nat.Prime Gen.curve_BRAINPOOLP384r1.p) := ⟨h⟩
-  exact Named.sign_then_verify mem_BRAINPOOLP384r1 prime_n_BRAINPOOLP384r1 d hd dg k rand enc wrap dec hcodec allow sig hsig
-
-theorem sign_then_verify_BRAINPOOLP512r1 {β σ : Type} (h : Nat.Prime Gen.curve_BRAINPOOLP512r1.p)
-    (d : ℤ) (hd : 1 ≤ d ∧ d < Gen.curve_BRAINPOOLP512r1.n) (dg : Bytes) (k : Option ℤ) (rand : ℤ → Res ℤ)
-    (enc : ℤ → ℤ → ℤ → Res β) (wrap : β → σ) (dec : σ → ℕ → Res (ℕ × ℕ)) (hcodec : Codec enc wrap dec Gen.curve_BRAINPOOLP512r1.n)
-    (allow : Bool) (sig : β) (hsig : signDigest (OnCurve.ops (crvOf Gen.curve_BRAINPOOLP512r1)) d dg k rand enc allow = .ok sig) :
-    ∃ Q, fromSecretExponent (OnCurve.ops (crvOf Gen.curve_BRAINPOOLP512r1)) d = .ok Q ∧
-      verifyDigest (OnCurve.ops (crvOf Gen.curve_BRAINPOOLP512r1)) Q dec (wrap sig) dg allow = .ok true := by
-  haveI : Fact (Nat.Prime Gen.curve_BRAINPOOLP512r1.p) := ⟨h⟩
-  exact Named.sign_then_verify mem_BRAINPOOLP512r1 prime_n_BRAINPOOLP512r1 d hd dg k rand enc wrap dec hcodec allow sig hsig
 
 end UncondC01
